@@ -239,7 +239,8 @@ CLAIMED["C19"] = dict(
          "among its outputs, for successful and failing saves alike (structural frame). What write.py does to runtime objects "
          "besides reading them is the temporary rooting of unrooted nodes; saveEffect is its net effect after the repair and "
          "C19_frame proves it invisible (every node keeps its root, place, children and metadata objects), C19_still_unrooted / "
-         "C19_can_be_added — an unrooted node stays unrooted and can still be added to a tree; C19_repeat — the tree content written "
+         "C19_can_be_added — an unrooted node stays unrooted and can still be added to a tree; C19_rooted_untouched / C19_others_untouched "
+         "— a node that is in a tree (whatever its root is called) and objects that were not passed are not touched at all; C19_repeat — the tree content written "
          "into a fresh file does not depend on the header, so two saves of the same input differ in the UUID only.",
     note="The frame over REAL objects is what the correspondence checks: full snapshot of all caller objects (shape, names, roots, "
          "metadata identity and content, data tokens, list length and item identity) before / after a save of every input kind, "
